@@ -9,6 +9,9 @@ import Driver.Lair
 import Driver.Feeflow
 import Driver.Toggles
 import Driver.Config
+import Driver.Stable2
+import Driver.Factory
+import Driver.Incentive
 namespace Driver
 
 /-- the state of whichever engine the last `init <engine> …` line selected
@@ -22,6 +25,10 @@ inductive EngineState where
   | feeflow (fs : FeeflowState)
   | toggles (t : TogglesD.TogglesSt)
   | config (c : WW.Config.Cfg)
+  | stable2 (cfg : WW.SsCfg) (s : WW.SsSt)
+  | trio (s : WW.Trio.St)
+  | registry (s : FacState)
+  | incentive (d : Driver.Incentive.DSt)
 
 /-- `init <engine> k=v …` : select the engine and build its initial state; prints the first observation -/
 def initLine (ws : List String) : EngineState × String :=
@@ -54,6 +61,23 @@ def initLine (ws : List String) : EngineState × String :=
     match ConfigD.configInit rest with
     | (some c, o) => (.config c, o)
     | (none, o) => (.none, o)
+  | "stable2" :: rest =>
+    match ssInitLine rest with
+    | some (some (cfg, s)) => (.stable2 cfg s, "ok " ++ ssObs s)
+    | some none => (.none, "err")
+    | none => (.none, "bad-op")
+  | "trio" :: kv =>
+    match Driver.Trio.init kv with
+    | some s => (.trio s, "ok " ++ Driver.Trio.obs s)
+    | none => (.none, "bad-op")
+  | "registry" :: rest =>
+    match facInit rest with
+    | some (s, o) => (.registry s, o)
+    | none => (.none, "bad-op")
+  | "incentive" :: rest =>
+    match Driver.Incentive.initLine rest with
+    | (some d, o) => (.incentive d, o)
+    | (none, o) => (.none, o)
   | _ => (.none, "bad-op")
 
 /-- an operation line for the currently selected engine -/
@@ -67,13 +91,17 @@ def opLine (st : EngineState) (ws : List String) : EngineState × String :=
   | .feeflow fs => let (fs', o) := FF.opLine fs ws; (.feeflow fs', o)
   | .toggles t => let (t', o) := TogglesD.togglesOp t ws; (.toggles t', o)
   | .config c => let (c', o) := ConfigD.configOp c ws; (.config c', o)
+  | .stable2 cfg s => let (s', o) := ssOpLine cfg s ws; (.stable2 cfg s', o)
+  | .trio s => let (s', o) := Driver.Trio.opLine s ws; (.trio s', o)
+  | .registry s => let (s', o) := facOp s ws; (.registry s', o)
+  | .incentive d => let (d', o) := Driver.Incentive.opLine d ws; (.incentive d', o)
 
 def stepLine (st : EngineState) (line : String) : EngineState × Option String :=
   match words line with
   | [] => (st, none)
   | w :: ws =>
     if w.startsWith "#" then (st, none)
-    else if w == "call" then (st, some (pureCall ws))
+    else if w == "call" then (st, some ((stable2Call ws).getD (pureCall ws)))
     else if w == "auth" then (st, some (authLine ws))
     else if w == "authrule" then (st, some (authRuleLine ws))
     else if w == "init" then let (st', o) := initLine ws; (st', some o)
